@@ -81,6 +81,10 @@ def one_config(idx, n, kinds, sc, nsim, nfree, seed, step_timeout_ms, flavours=N
     vlib.run_harness(args, timeout=1800)
     tv = vlib.validate_trace("TracePool_%s" % name, trace, spec_dir=d, heap="3g")
     events = vlib.read_ndjson(trace)
+    # tasks that ran without a single worker passing a hook point: the instrumented statements of src/thread_pool are
+    # gone (a rewrite of the pool needs its hooks and Pool.tla revisited) -- the trace says nothing about C07
+    if kinds and any(e["ev"] == "Start" for e in events) and not any(e["ev"] in ("Lock", "Recv") for e in events):
+        raise vlib.ToolError("tasks ran but no worker passed a hook point (cfg rws_verif instrumentation of src/thread_pool missing): not a verdict")
     return {"idx": idx, "n": n, "kinds": kinds, "behaviours": len(cases), "free": nfree, "events": len(events),
             "fails": tv.fails, "sample": cases[0] if cases else None, "gen_states": gen.generated,
             "runs": sum(1 for e in events if e["ev"] == "Reset")}
